@@ -5,8 +5,11 @@ LANES="${1:-3}"; PAT="${2:-C}"
 cd /verif
 ls -d seeded/${PAT}* | awk -v L=$LANES '{print (NR-1)%L, $0}' > /var/tmp/seed_lanes.txt
 for l in $(seq 0 $((LANES-1))); do
-  ( for d in $(awk -v l=$l '$1==l {print $2}' /var/tmp/seed_lanes.txt); do
-      r=$(tools/run_seeded_ws.py $((92+l)) $d 2>&1 | tail -1 | cut -c1-200)
+  ( first=1
+    for d in $(awk -v l=$l '$1==l {print $2}' /var/tmp/seed_lanes.txt); do
+      # the workspace copy of /verif is refreshed once per lane (so that /verif may be edited while the lanes run)
+      r=$(SEEDED_REFRESH=$first tools/run_seeded_ws.py $((92+l)) $d 2>&1 | tail -1 | cut -c1-200)
+      first=0
       echo "$(basename $d): $r"
     done ) &
 done
